@@ -55,7 +55,7 @@ CHECKS = {
    technique="runtime monitoring: id/nonce echo + health re-check oracle over sequential multiplexed establishments, schedule perturbation at hook points"),
  "C09": dict(
    category="exploration",
-   text="Runtime monitor: histories of unmatched / duplicate / late / expiry-aligned broker operations (the expiry alignment is produced deterministically by blocking the expiry goroutine at a hook point) (incl. a second dial to an id whose waiting accept was already served, an id that is announced twice after a dial to it timed out, a late accept whose ack arrives while another dial is waiting) on MuxBroker, GRPCBroker and multiplexed GRPCBroker, each followed by matched pairs on fresh ids in both directions and a close; oracle: every call returns (nominal 5 s, hang threshold 40 s), unmatched calls fail, fresh pairs succeed, a final close racing with listener announcements lets every call return, no goroutine with broker frames remains after all clients are closed. The defects it found (D5, D6 stale knock, D19 leaked knock listener) are repaired; known_findings.json holds only fixed entries.",
+   text="Runtime monitor: histories of unmatched / duplicate / late / expiry-aligned broker operations (the expiry alignment is produced deterministically by blocking the expiry goroutine at a hook point) (incl. a second dial to an id whose waiting accept was already served, an id that is announced twice after a dial to it timed out, a close that follows the plugin's server going away while an AcceptAndServe is pending, a late accept whose ack arrives while another dial is waiting) on MuxBroker, GRPCBroker and multiplexed GRPCBroker, each followed by matched pairs on fresh ids in both directions and a close; oracle: every call returns (nominal 5 s, hang threshold 40 s), unmatched calls fail, fresh pairs succeed, a final close racing with listener announcements lets every call return, no goroutine with broker frames remains after all clients are closed. The defects it found (D5, D6 stale knock, D19 leaked knock listener) are repaired; known_findings.json holds only fixed entries.",
    design_ref="DESIGN.md section 3, C09 and section 4 (D5, D6)",
    note="Bounded-progress reading of liveness; thresholds are generous so a loaded machine cannot manufacture alarms.",
    technique="runtime monitoring: bounded-progress oracle over fault histories with hook-controlled line-up, goroutine-dump leak monitor"),
@@ -73,7 +73,7 @@ CHECKS = {
    technique="runtime monitoring: /proc + cleanup-marker oracle over real subprocess shutdown behaviours, race detector"),
  "C02": dict(
    category="exploration",
-   text="Runtime monitor: one real plugin subprocess per (host version set, plugin version set) pair over versions 0-4 (and over {2,9,10,11,100}: different digit counts) with versioned / legacy / mixed layouts and per-version wire protocols; every plugin set carries a version tag reported by the dispensed implementation and by the host-side wrapper; half the cases also run the plugin directly with a chosen PLUGIN_PROTOCOL_VERSIONS to read the raw announced line. Relaunch cases start a second plugin (other version sets) through the same ClientConfig object; overlap cases give the host a ProtocolVersion that also has its own VersionedPlugins entry while Plugins holds another version's set; handshake-only cases give it a handshake ProtocolVersion it registered nothing for. Oracle = set arithmetic (highest common version, lowest when no list, incompatible-version error + terminated process when disjoint). Thorough is exhaustive over all 31x31 subset pairs.",
+   text="Runtime monitor: one real plugin subprocess per (host version set, plugin version set) pair over versions 0-4 (and over {2,9,10,11,100}: different digit counts, and {-3,-2,-1,0,2}: negative numbers) with versioned / legacy / mixed layouts and per-version wire protocols; every plugin set carries a version tag reported by the dispensed implementation and by the host-side wrapper; half the cases also run the plugin directly with a chosen PLUGIN_PROTOCOL_VERSIONS to read the raw announced line. Relaunch cases start a second plugin (other version sets) through the same ClientConfig object; overlap cases give the host a ProtocolVersion that also has its own VersionedPlugins entry while Plugins holds another version's set; handshake-only cases give it a handshake ProtocolVersion it registered nothing for. Oracle = set arithmetic (highest common version, lowest when no list, incompatible-version error + terminated process when disjoint). Thorough is exhaustive over all 31x31 subset pairs.",
    design_ref="DESIGN.md section 3, C02",
    note="Sets registered under one version use the same wire protocol on both sides; GRPCServer configured whenever a plugin-side set is gRPC.",
    technique="runtime monitoring: version-tag echo + raw handshake line capture, set-arithmetic oracle (exhaustive in thorough)"),
